@@ -146,53 +146,9 @@ def r5_dot(run, tree):
 
 
 def r6_construction(run, tree):
-    run.rule("C09.R6", "construction from Arrays validates the shape and unit of every component", "path rule", "", floor=3)
-    vi = tree.cls(VECTOR)
-    init = tree.method(vi, "__init__")
-    val = tree.method(vi, "_validate_component")
-    run.analysed(init)
-    pn = params(init)
-    X, Y, Z = pn[1], pn[2], pn[3]
-    validated = set()
-    for n in walk_no_nested(init.node):
-        if isinstance(n, ast.If) and isinstance(n.test, ast.Call) and is_name(n.test.func, "isinstance") and is_name(
-                n.test.args[0], X):
-            for st in n.body:
-                if isinstance(st, ast.Assign) and isinstance(st.value, ast.Call) and isinstance(st.value.func, ast.Attribute) \
-                        and st.value.func.attr == "_validate_component" and st.value.args and \
-                        is_name(st.value.args[0], st.targets[0].id if isinstance(st.targets[0], ast.Name) else ""):
-                    a = st.value.args
-                    if len(a) == 3 and norm(a[1]) == "%s.shape" % X and is_name(a[2], "unit"):
-                        validated.add(st.targets[0].id)
-    run.ob(VECTOR + ".__init__::components-validated", validated == {Y, Z}, init.where(),
-           "components validated against x: %s" % sorted(validated), "Vector(x_in_m, y_in_cm) or mismatched shapes accepted")
-    if val is None:
-        run.violated(VECTOR + "._validate_component", vi.module.rel, "validator missing", "Vector(x_in_m, y_in_cm)")
-        return
-    run.analysed(val)
-    vp = params(val)
-    seen = {"shape": False, "unit": False}
-    for path in enumerate_paths(val.node.body):
-        if path[-1][1] != "raise":
-            continue
-        for it in path:
-            if it[0] == "test" and it[2] is True and isinstance(it[1], ast.Compare) and isinstance(it[1].ops[0], ast.NotEq):
-                sides = {norm(it[1].left), norm(it[1].comparators[0])}
-                if sides == {"%s.shape" % vp[1], vp[2]}:
-                    seen["shape"] = True
-                if sides == {"%s.unit" % vp[1], vp[3]}:
-                    seen["unit"] = True
-    run.ob(VECTOR + "._validate_component::shape", seen["shape"], val.where(), "shape mismatch %s" % (
-        "raises" if seen["shape"] else "is not rejected"), "components of different lengths")
-    run.ob(VECTOR + "._validate_component::unit", seen["unit"], val.where(), "unit mismatch %s" % (
-        "raises" if seen["unit"] else "is not rejected"), "components in different units share one label")
-    # the unit setter propagates to all components
-    us = vi.methods.get("unit.setter")
-    if us is not None:
-        src = " ".join(norm(s) for s in us.node.body)
-        ok = all(("%s.%s.unit = " % (params(us)[0], c)) in src for c in "xyz")
-        run.ob(VECTOR + ".unit.setter", ok, us.where(), "unit setter assigns %s" % ("all three components" if ok else src[:80]),
-               "v.unit = u relabels only some components")
+    run.rule("C09.R6", "construction from Arrays validates the shape and unit of every component; the unit setter reaches every component",
+             "D7 fold of Vector.__init__ / unit setter over component tokens", "", floor=8)
+    cf.check_vector_constructor(run, tree)
 
 
 RULES = [r1_forwarding, r2_lifting, r3_cross, r4_norm, r5_dot, r6_construction]
